@@ -99,7 +99,7 @@ Definition run (c : cfg) (m : module) (fuel : nat) : outcome :=
   end.
 
 Definition out_of (o : outcome) : list byte :=
-  match o with Finished _ s | VmError _ s | OutOfFuel s => rev (st_out s) | _ => [] end.
+  match o with Finished _ s | VmError _ s | OutOfFuel s => rev_append (st_out s) [] | _ => [] end.
 
 (* the pipeline of nano_vm / vm_probe *)
 Inductive pipe :=
